@@ -1090,7 +1090,8 @@ class Client:
                 f"{name} must be integer, got bad value: {value!r}"
             )
 
-        return str(value).encode(self.encoding)
+        # int() so that int subclasses (bool, IntEnum) are sent as decimal numbers
+        return str(int(value)).encode(self.encoding)
 
     def _check_cas(self, cas: Union[int, str, bytes]) -> bytes:
         """Check that a value is a valid input for 'cas' -- either an int or a
